@@ -774,3 +774,33 @@ func sameExprV(v ssa.Value) VM {
 		return k != "" && exprKey(x) == k
 	}
 }
+
+// throughHelpers lifts a predicate on call sites to an instruction predicate
+// that also accepts a call of a module function which, on every normal
+// return, has executed a matching call (always-calls summary, 3 rounds): a
+// required step moved into a helper is still the step.
+func (e *Engine) throughHelpers(direct func(ssa.CallInstruction) bool) func(ssa.Instruction) bool {
+	fns := e.AlwaysReaches(direct, 3)
+	return func(in ssa.Instruction) bool {
+		c, ok := in.(ssa.CallInstruction)
+		if !ok {
+			return false
+		}
+		if _, isGo := in.(*ssa.Go); isGo {
+			return false
+		}
+		if direct(c) {
+			return true
+		}
+		cs := e.Callees(c)
+		if len(cs) == 0 {
+			return false
+		}
+		for _, g := range cs {
+			if !fns[g] {
+				return false
+			}
+		}
+		return true
+	}
+}
